@@ -195,29 +195,26 @@ Definition grade_part (T : tables) (cfg : config) (v_answer : entry) (v_expect v
     if opt_truthy v_msg then construct_message cfg (opt_get v_msg) (cfg_explain_minimums cfg)
     else Ret (credit_of v_answer).
 
-(* pattern + "$" unless the pattern ends with "^" *)
-Definition test_pattern (p : str) : str :=
-  let c := negb (py_endswith p [94]) in
-  if c then p ++ [36] else p.
-
-(* rematch p s  <->  re.match(p, s) is not None ;  refull p s  <->  re.fullmatch(p, s) is not None *)
+(* rematch p s  <->  re.match(p, s) is not None ;  refull p s  <->  re.fullmatch(p, s) is not None.
+   The validation test is re.fullmatch(pattern, cleaned) (since /repo commit 976ea10; before it the code used
+   re.match(pattern + "$", cleaned), which is not a full match -- see Proofs/StrRegex.v, section 8).
+   rematch is kept as a parameter because the regenerated definition takes both oracles. *)
 Definition check_response (T : tables) (rematch refull : str -> str -> bool) (cfg : config)
     (v_answer : entry) (a_expect : str) (v_student_input : str) : outcome :=
   let v_expect := clean_input T cfg a_expect in
   let v_student := clean_input T cfg v_student_input in
   let v_accept_any := accept_any_mode cfg in
   let v_min_length := effective_min_length cfg in
-  let validate_student v_testpattern :=
-    if negb (rematch v_testpattern v_student)
+  let validate_student s_pattern :=
+    if negb (refull s_pattern v_student)
     then construct_message cfg (cfg_invalid_msg cfg) (cfg_explain_validation cfg)
     else grade_part T cfg v_answer v_expect v_student v_accept_any v_min_length in
   match cfg_validation_pattern cfg with
   | Some s_pattern =>
-      let v_testpattern := test_pattern s_pattern in
       if negb v_accept_any then
-        if negb (rematch v_testpattern v_expect) then RaiseConfig
-        else validate_student v_testpattern
-      else validate_student v_testpattern
+        if negb (refull s_pattern v_expect) then RaiseConfig
+        else validate_student s_pattern
+      else validate_student s_pattern
   | None => grade_part T cfg v_answer v_expect v_student v_accept_any v_min_length
   end.
 
